@@ -9,11 +9,13 @@ import (
 	"sort"
 	"strconv"
 	"strings"
+	"text/template/parse"
 
 	"golang.org/x/tools/go/packages"
 	"golang.org/x/tools/go/ssa"
 
 	"ogenverif/internal/core"
+	"ogenverif/internal/tmpl"
 )
 
 func init() {
@@ -41,14 +43,19 @@ func runC01(c *core.Ctx) error {
 		return err
 	}
 	checkDefaultSelection(c, prog)
+	checkTimeFormatPrecedence(c)
+	if err := checkHeaderCanonical(c); err != nil {
+		return err
+	}
 	exp, err := c.Expand(nil)
 	r1 := c.NewRule("R01.1", "S2", "client path = server route pattern; path parameter decoders read the argument at the parameter's position", 100)
 	r2 := c.NewRule("R01.2", "S2", "parameter codec configuration agrees between client encoder and server decoder", 300)
 	r3 := c.NewRule("R01.3", "S2", "response variants: encoder (status, content type) ↔ decoder type; StatusCode carried", 200)
 	r4 := c.NewRule("R01.4", "S2", "setDefaults() dominates member decoding", 10)
 	r5 := c.NewRule("R01.5", "S2", "middleware parameter map keys = keys unpacked for the handler", 100)
+	r6 := c.NewRule("R01.6", "S2", "transport details: stream encoders are closed, response headers are set before WriteHeader, object-field configs only on object decoders", 100)
 	if err != nil {
-		for _, r := range []*core.Rule{r1, r2, r3, r4, r5} {
+		for _, r := range []*core.Rule{r1, r2, r3, r4, r5, r6} {
 			r.Undecided("expand", "-", trimPosMsg(err.Error(), 500))
 		}
 		return nil
@@ -64,6 +71,7 @@ func runC01(c *core.Ctx) error {
 		checkResponseVariants(c, r3, exp, fx, p, gi)
 		checkSetDefaultsFirst(c, r4, exp, fx)
 		checkMiddlewareKeys(c, r5, fx, p, gi)
+		checkTransport(c, r6, exp, fx, p)
 	}
 	return nil
 }
@@ -909,4 +917,375 @@ func checkMiddlewareKeys(c *core.Ctx, r *core.Rule, fx *core.Fixture, p *package
 			r.Fail("middleware-keys:"+key, c.Pos(handler.Pos()), fmt.Sprintf("with a middleware installed the handler of %s gets different parameters than the middleware saw: %s", op, strings.Join(problems, "; ")))
 		}
 	}
+}
+
+// ---------------------------------------------------------------- R01.6 (S2)
+
+func checkTransport(c *core.Ctx, r *core.Rule, exp *core.Expansion, fx *core.Fixture, p *packages.Package) {
+	pkg := exp.Prog.ByPath[fx.PkgPath]
+	if pkg == nil {
+		return
+	}
+	nEnc, nHdr := 0, 0
+	for _, fn := range core.PkgFuncs(exp.Prog.SSA, pkg) {
+		for _, b := range fn.Blocks {
+			for _, in := range b.Instrs {
+				call, ok := in.(*ssa.Call)
+				if !ok {
+					continue
+				}
+				cc := call.Common()
+				callee := cc.StaticCallee()
+				// (a) base64.NewEncoder: the returned WriteCloser buffers up to two bytes until Close
+				if callee != nil && callee.Pkg != nil && callee.Pkg.Pkg.Path() == "encoding/base64" && callee.Name() == "NewEncoder" {
+					nEnc++
+					closed := false
+					var visit func(v ssa.Value, d int)
+					seen := map[ssa.Value]bool{}
+					visit = func(v ssa.Value, d int) {
+						if seen[v] || d > 5 {
+							return
+						}
+						seen[v] = true
+						for _, ref := range *v.Referrers() {
+							switch x := ref.(type) {
+							case ssa.CallInstruction:
+								if x.Common().IsInvoke() && x.Common().Value == v && x.Common().Method.Name() == "Close" {
+									closed = true
+								}
+							case *ssa.Store:
+								// captured by the deferred closure: follow the cell
+								if x.Val == v {
+									if al, ok := x.Addr.(*ssa.Alloc); ok {
+										for _, r2 := range *al.Referrers() {
+											if ld, ok := r2.(*ssa.UnOp); ok && ld.Op == token.MUL {
+												visit(ld, d+1)
+											}
+											if mc, ok := r2.(*ssa.MakeClosure); ok {
+												if g, ok := mc.Fn.(*ssa.Function); ok {
+													for bi, bnd := range mc.Bindings {
+														if bnd == ssa.Value(al) && bi < len(g.FreeVars) {
+															for _, r3 := range *g.FreeVars[bi].Referrers() {
+																if ld, ok := r3.(*ssa.UnOp); ok && ld.Op == token.MUL {
+																	visit(ld, d+1)
+																}
+															}
+														}
+													}
+												}
+											}
+										}
+									}
+								}
+							case *ssa.Phi:
+								visit(x, d+1)
+							case *ssa.MakeInterface:
+								visit(x, d+1)
+							case *ssa.ChangeInterface:
+								visit(x, d+1)
+							}
+						}
+					}
+					visit(call, 0)
+					key := fmt.Sprintf("%s/%s", fx.Name, fnKey(fn))
+					if closed {
+						r.Pass(fmt.Sprintf("%s: base64 stream encoder is closed", key))
+					} else {
+						r.Fail("encoder-not-closed:"+key, c.Pos(call.Pos()), fmt.Sprintf("%s creates a base64.NewEncoder and never calls Close on it: the last 1–2 bytes of any body whose length is not a multiple of 3 are not written, with no error on either side", fn.Name()))
+					}
+				}
+				// (b) w.Header() after w.WriteHeader(code) is ignored by net/http
+				if cc.IsInvoke() && cc.Method.Name() == "WriteHeader" && strings.HasSuffix(cc.Value.Type().String(), "http.ResponseWriter") {
+					// only the response encoders (functions that take the response value and the writer)
+					if !strings.HasPrefix(fn.Name(), "encode") || !strings.HasSuffix(fn.Name(), "Response") {
+						continue
+					}
+					nHdr++
+					bad := token.NoPos
+					reach := map[*ssa.BasicBlock]bool{}
+					var walk func(x *ssa.BasicBlock)
+					walk = func(x *ssa.BasicBlock) {
+						for _, sc := range x.Succs {
+							if !reach[sc] {
+								reach[sc] = true
+								walk(sc)
+							}
+						}
+					}
+					walk(b)
+					check := func(blk *ssa.BasicBlock, from int) {
+						for i, in2 := range blk.Instrs {
+							if i < from {
+								continue
+							}
+							if c2, ok := in2.(*ssa.Call); ok && c2.Common().IsInvoke() && c2.Common().Method.Name() == "Header" && c2.Common().Value == cc.Value {
+								bad = c2.Pos()
+							}
+						}
+					}
+					for i, in2 := range b.Instrs {
+						if in2 == in {
+							check(b, i+1)
+						}
+					}
+					for blk := range reach {
+						if blk != b {
+							check(blk, 0)
+						}
+					}
+					key := fmt.Sprintf("%s/%s", fx.Name, fnKey(fn))
+					if bad != token.NoPos {
+						r.Fail("header-after-writeheader:"+key, c.Pos(bad), fmt.Sprintf("%s touches w.Header() on a path after w.WriteHeader: net/http has already sent the header block, so the declared response headers of that variant never reach the client", fn.Name()))
+					} else {
+						r.Ob(true, "")
+					}
+				}
+			}
+		}
+	}
+	// (c) AST: a parameter config with object Fields belongs to an object decoder (DecodeURI / DecodeFields), never to a
+	// scalar DecodeValue — HasParam looks for the listed member names instead of the parameter's own key
+	nCfg := 0
+	for _, f := range p.Syntax {
+		for _, d := range f.Decls {
+			fd, ok := d.(*ast.FuncDecl)
+			if !ok || fd.Body == nil || !strings.HasPrefix(fd.Name.Name, "decode") {
+				continue
+			}
+			ast.Inspect(fd.Body, func(n ast.Node) bool {
+				fl, ok := n.(*ast.FuncLit)
+				if !ok {
+					return true
+				}
+				var cfgPos token.Pos
+				hasFields := false
+				name := ""
+				for _, st := range fl.Body.List {
+					as, ok := st.(*ast.AssignStmt)
+					if !ok || len(as.Rhs) != 1 {
+						continue
+					}
+					cl, ok := as.Rhs[0].(*ast.CompositeLit)
+					if !ok || !strings.HasSuffix(types.ExprString(cl.Type), "DecodingConfig") {
+						continue
+					}
+					cfgPos = cl.Pos()
+					for _, e := range cl.Elts {
+						if kv, ok := e.(*ast.KeyValueExpr); ok {
+							switch types.ExprString(kv.Key) {
+							case "Fields":
+								if types.ExprString(kv.Value) != "nil" {
+									hasFields = true
+								}
+							case "Name":
+								name, _ = strLit(kv.Value)
+							}
+						}
+					}
+				}
+				if cfgPos == token.NoPos {
+					return true
+				}
+				nCfg++
+				scalar := false
+				ast.Inspect(fl.Body, func(m ast.Node) bool {
+					if ce, ok := m.(*ast.CallExpr); ok {
+						if sel, ok := ce.Fun.(*ast.SelectorExpr); ok && sel.Sel.Name == "DecodeValue" {
+							scalar = true
+						}
+					}
+					return true
+				})
+				if hasFields && scalar {
+					r.Fail(fmt.Sprintf("fields-on-scalar:%s/%s:%s", fx.Name, fd.Name.Name, name), c.Pos(cfgPos), fmt.Sprintf("%s gives the decoder of %q a list of object members (Fields) although the value is read as one scalar (DecodeValue, e.g. JSON content): HasParam then looks for the member names instead of %q and the parameter is taken as absent", fd.Name.Name, name, name))
+				} else {
+					r.Ob(true, "")
+				}
+				return false
+			})
+		}
+	}
+	_ = nEnc
+	_ = nHdr
+	_ = nCfg
+}
+
+// ---------------------------------------------------------------- R01.7 (S1)
+
+// checkTimeFormatPrecedence: a schema with x-ogen-time-format has both a TimeFormat and a Format; every template
+// that dispatches on them must ask for TimeFormat first, on the encoding side, the decoding side and for defaults
+// alike (sibling agreement), or one of them uses the standard layout for a value the other wrote with the custom one.
+func checkTimeFormatPrecedence(c *core.Ctx) {
+	r := c.NewRule("R01.7", "S1", "every template dispatch that tests both TimeFormat and Format tests TimeFormat first", 3)
+	ts, err := tmpl.Load(c.Repo)
+	if err != nil {
+		r.Undecided("load:templates", "-", err.Error())
+		return
+	}
+	// the JSON view's TimeFormat / Format: `….JSON.F` or `$j.F` (templates bind $j := ….JSON); ir.Type has an unrelated
+	// boolean field also called Format
+	endsJSON := func(ids []string, field string) bool {
+		n := len(ids)
+		if n == 0 || ids[n-1] != field {
+			return false
+		}
+		return (n >= 2 && ids[n-2] == "JSON") || (n == 2 && ids[0] == "$j")
+	}
+	mentions := func(p *parse.PipeNode, field string) bool {
+		found := false
+		tmpl.Walk(p, func(n parse.Node) bool {
+			switch x := n.(type) {
+			case *parse.FieldNode:
+				if endsJSON(x.Ident, field) {
+					found = true
+				}
+			case *parse.VariableNode:
+				if endsJSON(x.Ident, field) {
+					found = true
+				}
+			case *parse.ChainNode:
+				if endsJSON(x.Field, field) {
+					found = true
+				}
+			}
+			return true
+		})
+		return found
+	}
+	var names []string
+	for n := range ts.Trees {
+		names = append(names, n)
+	}
+	sort.Strings(names)
+	for _, name := range names {
+		tr := ts.Trees[name]
+		tmpl.Walk(tr.Root, func(n parse.Node) bool {
+			top, ok := n.(*parse.IfNode)
+			if !ok {
+				return true
+			}
+			// flatten the else-if chain
+			var conds []*parse.PipeNode
+			for cur := top; cur != nil; {
+				conds = append(conds, cur.Pipe)
+				next := (*parse.IfNode)(nil)
+				if cur.ElseList != nil && len(cur.ElseList.Nodes) == 1 {
+					if in, ok := cur.ElseList.Nodes[0].(*parse.IfNode); ok {
+						next = in
+					}
+				}
+				cur = next
+			}
+			iT, iF := -1, -1
+			for i, p := range conds {
+				if iT < 0 && mentions(p, "TimeFormat") {
+					iT = i
+				}
+				if iF < 0 && mentions(p, "Format") && !mentions(p, "TimeFormat") {
+					iF = i
+				}
+			}
+			if iT < 0 || iF < 0 {
+				return true
+			}
+			key := fmt.Sprintf("timeformat-order:%s", name)
+			pos := fmt.Sprintf("gen/_template/%s:%d", ts.FileOf[name], ts.Line(name, top.Pos))
+			if iT < iF {
+				r.Pass(fmt.Sprintf("%s at %s: TimeFormat tested before Format", key, pos))
+			} else {
+				r.Fail(key, pos, fmt.Sprintf("template %q asks for Format before TimeFormat: a value with x-ogen-time-format is handled with the standard layout here while its siblings use the custom layout (a default fails to parse and the zero time is delivered, or encode and decode disagree)", name))
+			}
+			return false
+		})
+	}
+}
+
+// ---------------------------------------------------------------- R01.8 (S1)
+
+// checkHeaderCanonical: net/http stores header names in canonical form. Indexing an http.Header map directly with a
+// name taken from the document (X-Request-ID, ETag) misses the entry; Get/Values/Set canonicalise.
+func checkHeaderCanonical(c *core.Ctx) error {
+	r := c.NewRule("R01.8", "S1", "http.Header maps are accessed through canonicalising methods (or with a canonicalised key) in the runtime packages", 3)
+	prog, err := c.Program("./uri", "./http", "./middleware", "./ogenerrors")
+	if err != nil {
+		return err
+	}
+	isHeader := func(t types.Type) bool {
+		n, ok := types.Unalias(t).(*types.Named)
+		return ok && n.Obj().Pkg() != nil && (n.Obj().Pkg().Path() == "net/http" || n.Obj().Pkg().Path() == "net/textproto") && (n.Obj().Name() == "Header" || n.Obj().Name() == "MIMEHeader")
+	}
+	canonical := func(v ssa.Value) bool {
+		for i := 0; i < 4; i++ {
+			switch x := v.(type) {
+			case *ssa.Const:
+				return true // a literal is the author's responsibility and visible in review
+			case *ssa.Call:
+				if callee := x.Common().StaticCallee(); callee != nil {
+					switch callee.Name() {
+					case "CanonicalHeaderKey", "CanonicalMIMEHeaderKey":
+						return true
+					}
+				}
+				return false
+			case *ssa.Convert:
+				v = x.X
+			case *ssa.ChangeType:
+				v = x.X
+			case *ssa.Extract:
+				// a key obtained by ranging over another header map is canonical already
+				if nx, ok := x.Tuple.(*ssa.Next); ok && x.Index == 1 {
+					if rg, ok := nx.Iter.(*ssa.Range); ok && isHeader(rg.X.Type()) {
+						return true
+					}
+				}
+				return false
+			default:
+				return false
+			}
+		}
+		return false
+	}
+	uses, direct := 0, 0
+	for _, sp := range prog.SSAPkgs {
+		if sp == nil || !core.InModulePath(sp.Pkg.Path()) {
+			continue
+		}
+		for _, fn := range core.PkgFuncs(prog.SSA, sp) {
+			for _, b := range fn.Blocks {
+				for _, in := range b.Instrs {
+					switch x := in.(type) {
+					case *ssa.Lookup:
+						if !isHeader(x.X.Type()) {
+							continue
+						}
+						direct++
+						if canonical(x.Index) {
+							r.Pass(fmt.Sprintf("%s: direct header lookup with a canonical key", core.FuncName(fn)))
+						} else {
+							r.Fail("header-direct-lookup:"+core.FuncName(fn), c.Pos(x.Pos()), fmt.Sprintf("%s indexes an http.Header map directly with a non-canonicalised name: a parameter declared as X-Request-ID or ETag is never found although it was sent, and an optional one is silently treated as absent", core.FuncName(fn)))
+						}
+					case *ssa.MapUpdate:
+						if !isHeader(x.Map.Type()) {
+							continue
+						}
+						direct++
+						if canonical(x.Key) {
+							r.Pass(fmt.Sprintf("%s: direct header store with a canonical key", core.FuncName(fn)))
+						} else {
+							r.Fail("header-direct-store:"+core.FuncName(fn), c.Pos(x.Pos()), fmt.Sprintf("%s stores into an http.Header map directly with a non-canonicalised name: Get/Values on the other side will not find it", core.FuncName(fn)))
+						}
+					case ssa.CallInstruction:
+						if callee := x.Common().StaticCallee(); callee != nil && callee.Signature.Recv() != nil && isHeader(callee.Signature.Recv().Type()) {
+							uses++
+						}
+					}
+				}
+			}
+		}
+	}
+	r.Note("http.Header accesses in uri/http/middleware: %d through methods, %d direct", uses, direct)
+	for i := 0; i < uses; i++ {
+		r.Ob(true, "")
+	}
+	return nil
 }
